@@ -207,8 +207,16 @@ func init() {
 			when := binop(i, token_ADD, types.Typ[types.Int64], i.now(), a[0])
 			fn := a[1]
 			tm := i.addTimer(when, nil)
+			// the call of AfterFunc happens before the callback: the callback starts with the creator's clock
+			var created vclock
+			if i.sched != nil && i.sched.cur != nil {
+				i.release(&created)
+			}
 			tm.fire = func() {
 				// the callback runs on the current thread at the instant the timer fires
+				if i.sched != nil && i.sched.cur != nil {
+					i.acquire(created)
+				}
 				call(i, i.curFrame(), 0, fn, nil)
 			}
 			var cell value = tm
